@@ -40,6 +40,22 @@ var (
 	// an exact registration that is malformed when read as a pattern, in front of / behind the others
 	metaABadFirst = append([]string{badGlob}, metaA...)
 	metaABadLast  = append(append([]string{}, metaA...), badGlob)
+	// exact registrations that do not survive url.Parse(...).String() (which the provider applies
+	// when it appends a state): upper-case scheme / host, non-ASCII path, IDN host, empty fragment,
+	// empty query, encoded reserved characters, a blank, a default port, dot segments
+	unstableA = []string{
+		"https://a.example/out",
+		"HTTPS://A.Example/Out",
+		"https://a.example/ä/ö",
+		"https://ä.example/out",
+		"https://a.example/f#",
+		"https://a.example/e?",
+		"https://a.example/a%2Fb/%7Ec",
+		"https://a.example/sp ace",
+		"https://a.example:443/p",
+		"https://a.example/x/../y",
+		"https://shared.example/out",
+	}
 )
 
 // registrations of this part beyond the common table `regs`
@@ -48,12 +64,13 @@ var nmRegs = []regDef{
 	{key: "meta-exact-globs-on-file-not-opted-in", exA: metaA, exB: metaB, aGlobs: aGood, aOpt: false, bOpt: false},
 	{key: "meta-exact-beside-opted-in-globs", exA: metaA, exB: metaB, aGlobs: aGood, aOpt: true, bOpt: true},
 	{key: "meta-exact-malformed-first", exA: metaABadFirst, exB: metaB},
+	{key: "exact-not-in-normal-form", exA: unstableA},
 	// thorough
 	{key: "meta-exact-malformed-last", exA: metaABadLast, exB: metaB},
 	{key: "globs-on-file-not-opted-in", aGlobs: aGood, aOpt: false, bOpt: false},
 }
 
-const quickNmRegs = 4
+const quickNmRegs = 5
 
 func nmRegList(full bool) []regDef {
 	out := append([]regDef{}, regs[:quickRegs]...)
@@ -123,7 +140,14 @@ var nmGens = []nmGen{
 		return []string{u + "x", u + "/", u + ".", u + ":", u + "/x", u + ".evil.example", u + ":8443", u + "?", u + "?x=1", u + "&x=1", u + "#", u + "#f", u + "%2F", u + u}
 	}},
 	{class: "nm-suffix-extended", full: true, f: func(u string) []string {
-		return []string{u + " ", u + "%20", u + "%00", u + "/..", u + "/.", u + ";x", u + "@evil.example", u + "\\"}
+		return []string{u + "%00", u + "/..", u + "/.", u + ";x", u + "@evil.example", u + "\\"}
+	}},
+	// the registered string with white space at either end (what a lenient parser trims away)
+	{class: "nm-white-space-edged", f: func(u string) []string {
+		return []string{u + " ", " " + u, " " + u + " ", u + "\t", "\t" + u, u + "\n", "\n" + u, u + "\r\n", "\r\n" + u, u + "\u00a0", u + "%20", "%20" + u, u + "+"}
+	}},
+	{class: "nm-white-space-edged", full: true, f: func(u string) []string {
+		return []string{u + "\v", u + "\f", "\u0085" + u, u + "\u2003", u + "\x00", u + "%0A", u + "%09", u + "  "}
 	}},
 	{class: "nm-authority-extended", f: func(u string) []string {
 		s, e, ok := authority(u)
